@@ -77,6 +77,7 @@ func discoverHarnesses(harnessRoot, repo, prop string) ([]*pkgHarness, map[strin
 		}
 		fset := token.NewFileSet()
 		has := false
+		shims := false // exported Vh* helpers used by harnesses of other packages
 		for _, f := range files {
 			af, err := parser.ParseFile(fset, f, nil, 0)
 			if err != nil {
@@ -89,6 +90,8 @@ func discoverHarnesses(harnessRoot, repo, prop string) ([]*pkgHarness, map[strin
 					if strings.HasPrefix(fd.Name.Name, "vh_"+prop+"_") {
 						has = true
 					}
+				} else if ok && fd.Recv == nil && strings.HasPrefix(fd.Name.Name, "Vh") {
+					shims = true
 				}
 			}
 			ast.Inspect(af, func(n ast.Node) bool {
@@ -104,7 +107,7 @@ func discoverHarnesses(harnessRoot, repo, prop string) ([]*pkgHarness, map[strin
 			})
 		}
 		// packages that only carry exported shims (no vh_ functions) are always overlaid
-		if has || prop == "" || len(p.Funcs) == 0 {
+		if has || shims || prop == "" || len(p.Funcs) == 0 {
 			out = append(out, p)
 		}
 		return nil
